@@ -1127,3 +1127,37 @@ def eof_is_the_only_end_of_data(ctx, p):
         ctx.ob(p + 'i first-record-id-from-a-complete-header', 'K4-confinement', ol.path,
                'open_log_file and its helpers obtain the header bytes with read_exact only (a file shorter than a header is reported as UnexpectedEof, not decoded from a partly filled buffer)',
                bool(exact) and not plain, 'read_exact sites %s, other read calls %s' % (exact, plain))
+
+
+def record_sections_in_table_order(ctx, p):
+    """Index and ref-count table files are created by the first action enacted into them, and at open a table that is older than
+    the current one and has no file is taken for a table that was dropped (its actions are skipped). That reading is only right if
+    files come into existence oldest first: the sections of ONE record that touch several generations of a table (a record that
+    grows the index) must be written - hence enacted - in ascending table order, not in hash-map order. Otherwise a stop between
+    the newer and the older section leaves only the newer file, and replay drops the older section of the record (F43)."""
+    F = ctx.F
+    b = ctx.body('log::LogChange::flush_to_file')
+    if not b:
+        return
+    n = 0
+    for fld, what in (('.LogChange.local_index', 'index'), ('.LogChange.local_ref_count', 'ref-count')):
+        loops = lib.for_loops_over(b, fld)
+        outer = [lp for lp in loops if not any(l2 is not lp and lp['head'] in b.reachable_from([l2['some']], removed={l2['head']}) for l2 in loops)]
+        ctx.ob(p + 'k0 %s-section-loop' % what, 'anchor', b.path, 'flush_to_file writes the %s sections of a record in a loop over LogChange%s' % (what, fld[len('.LogChange'):]), len(outer) >= 1, str([l['head'] for l in loops]))
+        for lp in outer[:1]:
+            n += 1
+            sl = backward_slice(b, [op_place(b.term(lp['head'])['a'][0])]) if op_place(b.term(lp['head'])['a'][0]) is not None else None
+            calls = sorted(sl.calls) if sl else []
+            ordered = [c for c in calls if re.search(r'::sort(_by|_by_key|_unstable|_unstable_by|_unstable_by_key|_by_cached_key)?$|BTreeMap|BTreeSet|BinaryHeap', c)]
+            tys = ' '.join(str(b.locals[l]) for l in (sl.locals if sl else []) if l < len(b.locals))
+            # `v.sort_by_key(..)` mutates through a reference: it is not in the data slice of `v`; look for a sort applied to a
+            # local of the slice on every path to the loop
+            SORT = ['re:::sort(_by|_by_key|_unstable|_unstable_by|_unstable_by_key|_by_cached_key)?$']
+            srt = [bi for bi, t in b.calls() if bi in b.normal_blocks() and call_matches(t, SORT) and t['a'] and op_place(t['a'][0]) is not None
+                   and sl is not None and (set(backward_slice(b, [op_place(t['a'][0])]).locals) & set(sl.locals))]
+            in_place = bool(srt) and b.find_path([0], {lp['head']}, removed=set(srt)) is None
+            ok = bool(ordered) or 'BTreeMap' in tys or in_place
+            ctx.ob(p + 'k %s-sections-in-table-order' % what, 'K2-loop-order', b.path,
+                   'the %s sections of a record are written in an order fixed by the table id (sorted sequence / ordered map), so that table files are created oldest first' % what,
+                   ok, '' if ok else 'the loop iterates the hash map directly: section order is arbitrary', b.loc(lp['head']))
+    ctx.ob(p + 'k1 section-loops', 'anchor', b.path, 'both multi-generation section loops were found', n == 2, 'found %d' % n)
